@@ -54,7 +54,7 @@ def correspondence(ctx):
 
 def search(ctx, broken, corr_broken):
     global LAST_SEARCH_CANDIDATES
-    hit, n = deccorr.monitor_isolation(ctx, 10, 40)
+    hit, n = deccorr.monitor_isolation(ctx, 40, 50)
     LAST_SEARCH_CANDIDATES = n
     if hit:
         return [{"key": f"C16/{hit['kind']}/{common.short_hash(hit)}", "what": hit["what"], "replay": hit}]
@@ -62,7 +62,7 @@ def search(ctx, broken, corr_broken):
 
 
 def replay(rp):
-    if rp.get("kind") not in ("isolation", "probe"):
+    if rp.get("kind") not in ("isolation", "probe", "rejected-input"):
         return False, "not an input replay: " + str(rp.get("broken_theorems") or rp.get("broken_correspondence"))[:500]
     outs = deccorr.replay_history(rp)
     return False, f"{rp['what']}; a fresh decoder alone returns for the last input: {outs[-1][:200]}"
